@@ -299,6 +299,93 @@ def tree(rc):
     rc.ob("triangulate: fill-in over all neighbour pairs; result = original edges + fill-in")
 
 
+
+def _string_typed(e) -> bool:
+    """the expression is a text label: a string literal, an f-string, `str(..)`, `sep.join(..)`, `'..' % ..`, `'..'.format(..)` or a concatenation with one of these"""
+    if isinstance(e, ast.Constant):
+        return isinstance(e.value, str)
+    if isinstance(e, ast.JoinedStr):
+        return True
+    if isinstance(e, ast.BinOp) and isinstance(e.op, (ast.Add, ast.Mod)):
+        return _string_typed(e.left) or _string_typed(e.right)
+    if isinstance(e, ast.Call):
+        if isinstance(e.func, ast.Name) and e.func.id in ("str", "repr"):
+            return True
+        if isinstance(e.func, ast.Attribute) and e.func.attr in ("join", "format") and _string_typed(e.func.value):
+            return True
+    return False
+
+
+def _fg_node_classes(repo):
+    """classes FactorGraph.check_model demands of a factor node: `isinstance(<node>, K)` under an `all(..)` whose failure raises"""
+    cm = repo.func(FG, "FactorGraph.check_model")
+    out = []
+    for s in sites(cm.node, lambda n: isinstance(n, ast.Raise)):
+        for t, pol in s.conds:
+            for c in ast.walk(t):
+                if isinstance(c, ast.Call) and call_name(c) == "isinstance" and len(c.args) == 2:
+                    ks = c.args[1].elts if isinstance(c.args[1], ast.Tuple) else [c.args[1]]
+                    out.append(([dotted(k) for k in ks], t))
+    return cm, out
+
+
+@rule("C14.fgnodes", "the node a converter adds for a factor is one the target's own validator accepts as a factor node", floor=2)
+def fgnodes(rc):
+    repo = rc.repo
+    cm, req = _fg_node_classes(repo)
+    if not req:
+        raise AnalysisError("FactorGraph.check_model: the factor-node class test was not found")
+    classes = sorted({k for ks, _ in req for k in ks if k})
+    rc.ob(f"FactorGraph.check_model: a non-variable node must be an instance of {classes}")
+    g = repo.func(MN, "MarkovNetwork.to_factor_graph")
+    defs = single_defs(g)
+    n_sites = 0
+    for s in sites(g.node, lambda n: isinstance(n, ast.Call) and call_name(n) in ("add_edges_from", "add_edge", "add_node", "add_nodes_from")):
+        loopv = [dotted(t) for t, it in s.loops if norm(it) in ("self.factors", "self.get_factors()")]
+        if not loopv:
+            continue
+        fv = loopv[-1]
+        c = s.node
+        # candidate node expressions: operands that are not the variables of the factor's scope
+        cands = []
+        a0 = deep_resolve(c.args[0], defs) if c.args else None
+        if call_name(c) == "add_edges_from" and isinstance(a0, ast.Call) and call_name(a0) == "product" and len(a0.args) == 2:
+            for side in a0.args:
+                if isinstance(side, (ast.List, ast.Tuple)) and len(side.elts) == 1:
+                    cands.append(side.elts[0])
+        elif call_name(c) == "add_edges_from" and isinstance(a0, (ast.ListComp, ast.GeneratorExp)) and isinstance(a0.elt, ast.Tuple) and len(a0.elt.elts) == 2:
+            gv = {dotted(gen.target) for gen in a0.generators}
+            cands += [e for e in a0.elt.elts if dotted(e) not in gv]
+        elif call_name(c) == "add_edge" and len(c.args) >= 2:
+            sc = {dotted(t) for t, it in s.loops[len(s.loops) - 0:]}
+            inner = {dotted(t) for t, it in s.loops if "scope" in norm(deep_resolve(it, defs))}
+            cands += [deep_resolve(e, defs) for e in c.args[:2] if dotted(e) not in inner]
+        elif call_name(c) == "add_node" and c.args:
+            cands.append(a0)
+        else:
+            raise AnalysisError(f"to_factor_graph: cannot identify the factor node in `{norm(c, 80)}`")
+        for e in cands:
+            n_sites += 1
+            rc.ob(f"to_factor_graph: factor node `{norm(e, 60)}` for `{fv}`")
+            if dotted(e) == fv:
+                continue
+            if _string_typed(e):
+                rc.fail(g, c, f"the factor node is the text label `{norm(e, 60)}`, but FactorGraph.check_model accepts only instances of {classes} as non-variable nodes: every "
+                        "converted factor graph is rejected by its own validator (check_model, and get_partition_function / to_markov_model / to_junction_tree, which validate "
+                        "first), and two factors over the same scope share one node", construct="factor node is a label, validator wants the factor")
+            else:
+                raise AnalysisError(f"to_factor_graph: cannot decide whether `{norm(e, 60)}` is the factor object")
+    if not n_sites:
+        raise AnalysisError("to_factor_graph: no factor-node site found in the loop over the model's factors")
+    # FG's own editor agrees with the validator: add_factors(replace=True) re-attaches the factor OBJECT
+    af = repo.func(FG, "FactorGraph.add_factors")
+    for c in calls_named(af, "add_node"):
+        loopv = {dotted(t.target) for t in walk_no_nested(af.node) if isinstance(t, ast.For)}
+        rc.ob(f"FactorGraph.add_factors: `{norm(c)}`")
+        if not c.args or dotted(c.args[0]) not in loopv:
+            rc.fail(af, c, "the replacing factor must itself become the factor node", construct="replace: factor node")
+
+
 _ASSIGN = "                if not is_used[index] and set(factor.scope()).issubset(node):\n                    clique_factors.append(factor)\n                    is_used[index] = True"
 
 
@@ -330,6 +417,8 @@ MUTANTS = [
          old="complete_graph.add_edge(*edge, weight=-weight)", new="complete_graph.add_edge(*edge, weight=weight)"),
     dict(kind="break", name="bn-to-mn-drops-isolated", file=BN, expect="C14.tree",
          old="        mm.add_nodes_from(moral_graph.nodes())\n", new=""),
+    dict(kind="repair", name="fg-node-is-the-factor", file=MN, expect="C14.fgnodes",
+         old='            factor_node = "phi_" + "_".join(scope)\n', new="            factor_node = factor\n"),
     dict(kind="twin", name="jt-usage-by-id", file=MN,
          old="        is_used = [False] * len(self.factors)\n", new="        is_used = [False for _ in self.factors]\n"),
 ]
